@@ -1,5 +1,5 @@
 """C07 -- pointwise evaluation on the boundary (DESIGN.md E2/E3/E4)."""
-from .. import causal, kernels, evalrules, panels
+from .. import causal, kernels, evalrules, panels, quadalg
 from ..cas import run_tasks
 
 LEVEL = 'other'
@@ -28,6 +28,7 @@ def run(prog, report, tier):
     causal.run_sites(prog, report, files={kernels.SL, kernels.SLX})
     evalrules.check_grading_end(prog, report)
     panels.check_sym(prog, report)
+    quadalg.check_mirrors(prog, report)
     panels.check_straight(prog, report, which=('residual', ))
     run_tasks(report, [(kernels.cert_K1, (prog.repo, )),
                        (kernels.cert_K3, (prog.repo, )),
